@@ -291,6 +291,10 @@ func main() {
 			specs = append(specs,
 				scenario("pushwait,pushwait|popwait,popwait", capa, capa, rot, "", prog{"pushwait:1", "pushwait:2"}, prog{"popwait", "popwait"}),
 				scenario("pushwait,pushwait|popwait,popwait", capa, 0, rot, "", prog{"pushwait:1", "pushwait:2"}, prog{"popwait", "popwait"}),
+				// the try-once forms alone: PushWait(v, 0) on a full ring / PopWait(0) on an empty one return
+				// false at once (nobody will ever make room: blocking here is a livelock)
+				scenario("pushwait0-alone-full", capa, capa, rot, "", prog{"pushwait0:1"}),
+				scenario("popwait0-alone-empty", capa, 0, rot, "", prog{"popwait0"}),
 				scenario("pushwait0|popwait0", capa, capa, rot, "", prog{"pushwait0:1"}, prog{"popwait0"}),
 				scenario("pushwait0|popwait0", capa, 0, rot, "", prog{"pushwait0:1"}, prog{"popwait0"}),
 			)
